@@ -47,12 +47,15 @@ def run(chk):
         mb = Sym('dynamic_slice', fz(s2), (fz(i2),), (fz(K('bo')),))
         if set(batch.keys()) != {"pinn_in", "val", "eq_params"}:
             raise Violation("batch keys", str(sorted(batch.keys())), "['eq_params', 'pinn_in', 'val']")
-        expect_same(batch["pinn_in"], Sym('take', Sym('obs_in'), mb, ('axis', 0)), "batch['pinn_in']")
-        expect_same(batch["val"], Sym('take', Sym('obs_val'), mb, ('axis', 0)), "batch['val']")
+        from .C09 import wild_keys
+        mb = wild_keys(mb)
+        g_ = lambda v: wild_keys(fz(v))
+        expect_same(g_(batch["pinn_in"]), Sym('gather', Sym('obs_in'), mb), "batch['pinn_in']")
+        expect_same(g_(batch["val"]), Sym('gather', Sym('obs_val'), mb), "batch['val']")
         if set(batch["eq_params"].keys()) != {'nu', 'th'}:
             raise Violation("eq_params keys", str(sorted(batch['eq_params'].keys())), "['nu', 'th']")
         for k in ('nu', 'th'):
-            expect_same(batch["eq_params"][k], Sym('take', Sym(f'obs_{k}'), mb, ('axis', 0)), f"batch['eq_params'][{k!r}]")
+            expect_same(g_(batch["eq_params"][k]), Sym('gather', Sym(f'obs_{k}'), mb), f"batch['eq_params'][{k!r}]")
         return "pinn_in, val and every observed parameter gathered with the same mini-batch of indices on axis 0"
     chk.run("C15.R1", f"{MOD}:DataGeneratorObservations.obs_batch", {}, go_gather, construct="aligned gather")
 
